@@ -557,6 +557,12 @@ mod handlers {
         file_name: ExternalFileName,
         query: MoveFileQuery,
     ) -> Result<()> {
+        // File names are the hash of the file contents
+        // so moving a file must not change the name
+        if query.name != file_name {
+            return Err(Error::Status(StatusCode::BAD_REQUEST));
+        }
+
         let account = {
             let backend = backend.read().await;
             let accounts = backend.accounts();
